@@ -113,10 +113,10 @@ def validate(module, traces, label, parallel=4, timeout=2400):
             if isinstance(v, tuple) and len(v) >= 4 and v[0] == "V":
                 verdicts[v[1]] = (v[2], v[3])
             elif isinstance(v, tuple) and len(v) >= 4 and v[0] == "M":
-                models[v[1]] = (v[2], v[3], sorted(v[4]) if len(v) > 4 else [])
-        miss = [t["id"] for t in part if t["id"] not in verdicts]
+                models[v[1]] = (v[2], v[3], v[4] if len(v) > 4 else 0)      # v[4]: bit mask over trace["dev"]
+        miss = [t["id"] for t in part if t["id"] not in verdicts or t["id"] not in models]
         if miss:
-            raise tlc.TLCFailure(f"{label}: no verdict for {len(miss)} traces (first {miss[:3]})")
+            raise tlc.TLCFailure(f"{label}: no verdict/model line for {len(miss)} traces (first {miss[:3]})")
     return verdicts, models, results
 
 
@@ -143,7 +143,8 @@ def judge(chk, fam, module, traces, meta, all_devs, label, parallel):
     stats = {"traces": len(traces), "steps": sum(len(t["steps"]) for t in traces), "accept": 0, "prop": 0, "drift": 0,
              "failures_by_key": {}}
     for tid, (v, pos) in sorted(verdicts.items()):
-        mism, mpos, used = models.get(tid, ("none", 0, []))
+        mism, mpos, mask = models[tid]
+        used = [d for i, d in enumerate(as_code) if isinstance(mask, int) and mask >> i & 1]
         origin = meta[tid].get("origin")
         if v == "ACCEPT":
             stats["accept"] += 1
@@ -267,7 +268,7 @@ def run_paxos(chk, jobs, tier, rng, parallel):
     dot = tlc.WORK / "C12_paxos_live_ascode" / "graph.dot"
     g = tlc.parse_dot(dot)
     n_paths = 0
-    for root, path in tlc.edge_tour(g):
+    for root, path in tlc.edge_tour(g, max_paths=150 if tier == "quick" else None, rng=rng):
         states = [g.nodes[root]] + [g.nodes[d] for _, d in path]
         c, skipped = P.replay_choices(3, P.choices_from_states(states))
         chk.replays += 1
@@ -351,9 +352,8 @@ def multi_jobs(jobs, tier):
     jobs.submit("multi_tour", lambda: mc(M, "multi_tour", multi_consts(cands="{}", subs="{1}", starts=1, cmds=1, maxb=1,
                                                                        hb=True, ticks=1, prefix="PrefixLeader1",
                                                                        dev=MULTI_DEVS), workers=small, dot=True))
-    if tier != "quick":
-        jobs.submit("multi_nonintersecting", lambda: mc(M, "multi_nonintersect", multi_consts(
-            flex=True, q1=1, q2=2, cands="{1,3}", subs="{1,3}", starts=2, cmds=2, maxb=1), MULTI_INVS, workers=big))
+    jobs.submit("multi_nonintersecting", lambda: mc(M, "multi_nonintersect", multi_consts(
+        flex=True, q1=1, q2=2, cands="{1,3}", subs="{1,3}", starts=2, cmds=2, maxb=1), MULTI_INVS, workers=small))
 
 
 def run_multi(chk, jobs, tier, rng, parallel):
@@ -402,12 +402,11 @@ def run_multi(chk, jobs, tier, rng, parallel):
                 note="sensitivity run, must violate")
     chk.require(res.violated == "temporal", f"deviation self_heartbeat_demotes_leader not caught (got {res.violated})")
     chk.sensitivity["self_heartbeat_demotes_leader"] = "Progress"
-    if tier != "quick":
-        res = jobs.result("multi_nonintersecting")
-        chk.add_tlc("Flexible Paxos Dev={} with NON-intersecting quorums Q1=1,Q2=2,N=3", res, count=False,
-                    note="must violate: shows Agreement depends on Q1+Q2>N")
-        chk.require(res.violated in MULTI_INVS, f"non-intersecting quorums not caught (got {res.violated})")
-        chk.sensitivity["nonintersecting_quorums(model only)"] = res.violated
+    res = jobs.result("multi_nonintersecting")
+    chk.add_tlc("Flexible Paxos Dev={} with NON-intersecting quorums Q1=1,Q2=2,N=3", res, count=False,
+                note="must violate: shows Agreement depends on Q1+Q2>N")
+    chk.require(res.violated in MULTI_INVS, f"non-intersecting quorums not caught (got {res.violated})")
+    chk.sensitivity["nonintersecting_quorums(model only)"] = res.violated
     base = {"n": 3, "flex": False, "q1": 2, "q2": 2}
     for dev, kw in MULTI_SENS.items():
         res = jobs.result(f"multi_dev_{dev}")
@@ -423,7 +422,7 @@ def run_multi(chk, jobs, tier, rng, parallel):
     dot = tlc.WORK / "C12_multi_tour" / "graph.dot"
     g = tlc.parse_dot(dot)
     n_paths = 0
-    for root, path in tlc.edge_tour(g, max_paths=400 if tier == "quick" else None, rng=rng):
+    for root, path in tlc.edge_tour(g, max_paths=150 if tier == "quick" else 1500, rng=rng):
         states = [g.nodes[root]] + [g.nodes[d] for _, d in path]
         c, skipped = M.replay_choices(base, M.choices_from_states(states), M.PREFIXES["PrefixLeader1"])
         chk.replays += 1
@@ -445,7 +444,7 @@ def run_multi(chk, jobs, tier, rng, parallel):
 def misc_jobs(jobs, tier):
     small = 2
     big = tier != "quick"
-    ec = {"N": 3, "Strategies": '{"bully","ring","random"}', "MaxTerm": 4 if big else 3, "MaxChecks": 4 if big else 3,
+    ec = {"N": 3, "Strategies": '{"bully","ring","random"}', "MaxTerm": 3, "MaxChecks": 3 if big else 2,
           "Dev": "{}"}
     jobs.submit("elect_clean", lambda: mc("Election.tla", "elect_clean", ec, ["InvOneLeaderPerTerm"], workers=small if not big else W // 2))
     jobs.submit("elect_dev", lambda: mc("Election.tla", "elect_dev", dict(ec, Strategies='{"ring"}',
